@@ -7,6 +7,22 @@ CHECKS = {
  "C01": dict(cat="exploration", tech="stateful property-based testing (proptest op sequences + bounded-exhaustive small scope) of the real pub/sub router future against a delivery reference oracle, with harness-owned mock peers and scheduler",
      text="Generated schedules (registrations, sends, back-pressure, wake-ups) are run against the real pubsub::Topic/FanoutMany code and every subscriber's wire is compared with a per-publisher contiguous-run oracle; random search plus complete enumeration of all op sequences up to a small length. Exploration, not proof: a pass means no counterexample among the generated schedules.",
      note="Subscriber sinks are a model of FramedWrite over a flow-controlled stream; quinn itself is only exercised by the loopback legs. Cross-publisher order unconstrained.", ref="§5 C01"),
+
+ "C02": dict(cat="exploration", tech="stateful property-based testing (proptest op sequences + bounded-exhaustive small scope) of the real request/reply router future against a routing reference model, harness-owned mock peers and scheduler",
+     text="Generated histories of requests, replies (with removed/unknown/malformed/foreign routing tags), requestor-supplied tags, bind/unbind and back-pressure are run against the real reqrep::Topic + sink::Router; oracles: at-most-once/exactly-once-while-bound request delivery in requestor order with a stable unforgeable origin tag, every pulled reply for a still-connected requestor delivered exactly once to its owner only with the tag stripped, bad-tag replies delivered to nobody. Exploration, not proof.",
+     note="Sinks are a model of FramedWrite; routing tags are treated as opaque learned tokens; reply order per requestor and replies buffered at shutdown are not constrained (no property claims them).", ref="§5 C02"),
+ "C08": dict(cat="fault_enumeration", tech="generated fault injection (which peer x which Sink operation x which point of the sequence) on mock peers, at three levels: FanoutMany/Router driven directly as Sinks and both router futures; healthy-peer delivery oracle + probe exchange",
+     text="Every (operation x sibling position x router) class is generated thousands of times per quick run; healthy siblings must satisfy the full C01/C02 delivery oracle over the whole history, the aggregate sink must never error or panic, and after a replier failure a fresh replier must bind and serve a probe exchange.",
+     note="A failed sink keeps failing and wakes its waiter (as a broken QUIC stream does); 'conn' faults also error+end the peer's inbound stream.", ref="§5 C08"),
+ "C09": dict(cat="exploration", tech="stateful PBT of both router futures under a strictly wake-driven harness executor with an inner-poll counter (spin bound) and a quiescence oracle; exhaustive enumeration of one-sided populations",
+     text="The harness owns every wake-up: the router is re-polled only when it woke its waker. Spin = more mock calls inside one poll than max(50000,16*(work+2)*(peers+4)); sleeping on undone work = at quiescence some registered stream still has queued items, some healthy sink is unflushed, some registration was not processed, or closing the channel does not complete the future.",
+     note="A loop that calls no mock is only caught by the 120 s watchdog (exit 2). Mocks wake exactly the last waker they were given.", ref="§5 C09"),
+ "C10": dict(cat="exploration", tech="stateful PBT of the request/reply router against a single-binding reference model (FIFO registration, settle-separated certainty), incl. blocked rejected-replier sinks, plus bounded-exhaustive small scope and a probe exchange",
+     text="Sequences of replier registrations/departures interleaved with traffic; a replier registered while another is surely bound must see exactly [Error(REPLIER_ALREADY_BOUND)] then a completed close and no request; a replier registered after all earlier ones surely left must be bound and served; requests never reach two repliers; no half-rejected replier in any interleaving.",
+     note="'Surely' means separated by a Settle with no sink blocked; in between either verdict (bound / properly rejected) is accepted.", ref="§5 C10"),
+ "C16": dict(cat="exploration", tech="stateful PBT with the registration-channel close injected at a generated point of router histories (both routers), termination + flush-before-finish oracle, bounded-exhaustive small scope",
+     text="close_channel() (what Server::shutdown calls) is injected at any point (idle, right after a registration, with buffered items and blocked sinks, one-sided populations); once sinks accept data the future must complete within a bounded number of polls and, for pub/sub, everything pulled from a publisher must be on every healthy adopted subscriber's wire.",
+     note="World B does not include Server::shutdown's join_all (needs a signal); for req/rep only termination is claimed.", ref="§5 C16"),
 }
 PENDING = {}
 ALL = ["C%02d" % i for i in range(1, 18)]
